@@ -63,7 +63,7 @@ instance (p : SliceLossIndication) : Decidable p.WF := by unfold SliceLossIndica
 def FIREntry.WF (e : FIREntry) : Prop := u32 e.ssrc ∧ u8 e.seq
 instance (e : FIREntry) : Decidable e.WF := by unfold FIREntry.WF; infer_instance
 def FullIntraRequest.WF (p : FullIntraRequest) : Prop :=
-  u32 p.sender ∧ u32 p.media ∧ 1 ≤ p.fir.length ∧ p.fir.length ≤ 8190 ∧ ∀ e ∈ p.fir, e.WF
+  u32 p.sender ∧ u32 p.media ∧ 1 ≤ p.fir.length ∧ p.fir.length ≤ 32766 ∧ ∀ e ∈ p.fir, e.WF
 instance (p : FullIntraRequest) : Decidable p.WF := by unfold FullIntraRequest.WF; infer_instance
 
 end Rtcp
